@@ -32,7 +32,7 @@ class FileObj:
     def __init__(self, handle, base=0):
         self.handle = handle; self.written = base; self.synced = 0; self.base = base
 
-def image_at(evs, shadow, p, mode, rng=None):
+def image_at(evs, shadow, p, mode, rng=None, initial=None):
     """Directory image after a crash right before event index p.
     mode: 'written' byte-exact process-crash image (C03);
           'min'  power loss: every file cut to its last-fsync length, dir ops only up to the last fsync;
@@ -47,6 +47,9 @@ def image_at(evs, shadow, p, mode, rng=None):
             last_sync = i + 1
     dir_limit = p if mode in ('written', 'dirahead', 'torn') else last_sync
     names = {}         # name -> FileObj
+    for n0 in (initial or {}):
+        # files present when the traced run started (second-level crashes: the directory a first crash left) are durable
+        o = FileObj(('init', n0), initial[n0]); o.synced = o.base; names[n0] = o
     for i, e in enumerate(evs[:p]):
         k = e['k']
         if k == 'C':
@@ -79,11 +82,12 @@ def image_at(evs, shadow, p, mode, rng=None):
 def image_key(img):
     return hashlib.sha1(repr(sorted(img.items())).encode()).hexdigest()
 
-def materialise(img, shadow, dst, extra_cut=None):
+def materialise(img, shadow, dst, extra_cut=None, initial_dir=None):
     if os.path.exists(dst): shutil.rmtree(dst)
     os.makedirs(dst)
     for n, (h, ln) in img.items():
-        with open(os.path.join(shadow, str(h)), 'rb') as f:
+        src = os.path.join(initial_dir, h[1]) if isinstance(h, tuple) else os.path.join(shadow, str(h))
+        with open(src, 'rb') as f:
             data = f.read(ln)
         with open(os.path.join(dst, n), 'wb') as f:
             f.write(data)
@@ -145,9 +149,9 @@ def run_traced(k3, dbdir, opts, ops, workdir, fail=None, timeout=600, logidx=Fal
         rc, out, err = -999, (e.stdout or b'').decode('latin1'), 'TIMEOUT'
     return rc, out, err, parse_io_trace(tr), sh
 
-def recover_and_read(k2, img, shadow, dst, opts, followup=None, timeout=60):
+def recover_and_read(k2, img, shadow, dst, opts, followup=None, timeout=60, initial_dir=None):
     """Run the real ldb_open on a materialised image, scan, then an optional follow-up workload."""
-    materialise(img, shadow, dst)
+    materialise(img, shadow, dst, initial_dir=initial_dir)
     ops = ['open', 'scan -', 'layout']
     if followup: ops += followup
     args = [k2, dst] + ['%s=%s' % kv for kv in sorted(opts.items())]
